@@ -26,6 +26,7 @@ pre-existing file content (identical, modified, truncated, longer, anything), ev
 -/
 import Rustic.Model.Restore
 import Rustic.Lemmas.RestoreWalk
+import Rustic.Lemmas.RestoreTasks
 namespace Rustic.Props.C14
 open Rustic.Restore
 
@@ -135,6 +136,35 @@ theorem accepted_by_size_and_mtime_witness :
 
 example : restoreFile { verify := false, sparse := false } (some [9, 9, 9]) true [[1], [2]] = some [1, 2] := by decide
 example : restoreFile { verify := true, sparse := true } (some [1, 7, 7, 7]) false [[1, 2], [0, 0]] = some [1, 2, 0, 0] := by decide
+
+/-! ### contents, writer task by writer task (`Model/RestoreTasks.lean`) -/
+
+/-- **restore_tasks_eq_segments.**  `restore_contents` as it is written — writer tasks only for the blobs NOT found in the
+existing file, the file created / truncated / sized inside the first task, holes skipped by the task — produces, for every
+prior content, blob list and option set, exactly the file of the segment model (tasks run in blob order). -/
+theorem restore_tasks_eq_segments (o : Opts) (old : Option Bytes) (mtimeEq : Bool) (blobs : List Bytes) :
+    restoreFileTasks o old mtimeEq blobs = restoreFile o old mtimeEq blobs :=
+  restoreFileTasks_eq o old mtimeEq blobs
+
+/-- `restore_exact` for the task-level model -/
+theorem restore_exact_tasks (o : Opts) (old : Option Bytes) (mtimeEq : Bool) (blobs : List Bytes)
+    (hcheck : o.verify = true ∨ mtimeEq = false ∨ (matchingFile old blobs.flatten.length).isSome = false) :
+    restoreFileTasks o old mtimeEq blobs = some blobs.flatten := by
+  rw [restore_tasks_eq_segments]; exact restore_exact o old mtimeEq blobs hcheck
+
+/-- **allocating_task_exists.**  A non-empty file that has to be created or resized (no existing file of the snapshot's
+size) gets at least one writer task — the one that creates and sizes it — whatever its blobs are, all-zero blobs under
+`sparse` included: a hole is skipped INSIDE its task, after the allocation.  (The seeded change C14-2 skipped holes before
+the task is spawned: an all-zero file then has no task and is never created.) -/
+theorem allocating_task_exists (o : Opts) (blobs : List Bytes) (h : blobs.flatten.length ≠ 0) :
+    tasks o true none 0 blobs ≠ [] :=
+  tasks_ne_nil_of_fresh o true blobs 0 h
+
+/-- an all-zero file, sparse restore, no destination file: one hole task per blob, nothing is written, the file exists with
+the right length; without any task (`runTasks … []`) the destination would stay absent -/
+example : (tasks { verify := true, sparse := true } true none 0 [[0, 0], [0]]).map (·.hole) = [true, true] ∧
+    restoreFileTasks { verify := true, sparse := true } none false [[0, 0], [0]] = some [0, 0, 0] ∧
+    runTasks none true 3 [] = none := by decide
 
 /-! ### confinement -/
 
